@@ -89,6 +89,7 @@ def extract(m, h0, N, maxlen=3):
         o = {'kind': k, 'sink': _val(m, z3.Select(h0.sink, r)), 'source': _val(m, z3.Select(h0.source, r))}
         if k == H.UNIT:
             o['ins'] = _val(m, z3.Select(h0.ins, r)); o['outs'] = _val(m, z3.Select(h0.outs, r))
+            o['uid'] = _val(m, H.UID(z3.IntVal(r)))        # 0 = unregistered (ID ''); equal values = equal IDs
         if k in (H.INLETS, H.OUTLETS):
             n = _val(m, z3.Select(h0.llen, r))
             o['list'] = [_val(m, h0.el(r, z3.IntVal(i))) for i in range(n)]
@@ -110,7 +111,7 @@ def build(objs):
     for r, o in objs.items():
         if o['kind'] == H.UNIT:
             u = _U.__new__(_U)
-            u._ID = f'U{r}'
+            u._ID = '' if o.get('uid', r) == 0 else f"U{o.get('uid', r)}"
             real[r] = u
     for r, o in objs.items():
         if o['kind'] == H.STREAM:
